@@ -456,6 +456,7 @@ func runC18(c *core.Ctx) {
 		po[k] = v
 	}
 	c.SetExtra("accessors_per_value_per_sweep", po)
+	c18Independent(c)
 }
 
 func firstDiffStr(a, b string) string {
